@@ -47,6 +47,8 @@ class Zone:
         self.m: dict[tuple[str, str], float] = {}
         self.ints: set[str] = set()
         self.facts: set[str] = set()        # opaque must-facts (client use)
+        self.defs: dict[str, frozenset] = {}  # reaching definitions per variable
+        self.aux: dict[str, Any] = {}       # client snapshots (kept when equal on join)
         self.bottom = False
 
     # ---- basic ---------------------------------------------------------
@@ -55,6 +57,8 @@ class Zone:
         z.m = dict(self.m)
         z.ints = set(self.ints)
         z.facts = set(self.facts)
+        z.defs = dict(self.defs)
+        z.aux = dict(self.aux)
         z.bottom = self.bottom
         return z
 
@@ -141,6 +145,11 @@ class Zone:
                 z.m[k] = max(c, o.m[k])
         z.ints = self.ints & o.ints
         z.facts = self.facts & o.facts
+        for k in set(self.defs) | set(o.defs):
+            z.defs[k] = self.defs.get(k, frozenset({'?'})) | o.defs.get(k, frozenset({'?'}))
+        for k, v in self.aux.items():
+            if k in o.aux and o.aux[k] == v:
+                z.aux[k] = v
         return z
 
     def leq(self, o: 'Zone') -> bool:
@@ -157,6 +166,9 @@ class Zone:
                 z.m[k] = c
         z.ints = self.ints & new.ints
         z.facts = self.facts & new.facts
+        for k in set(self.defs) | set(new.defs):
+            z.defs[k] = self.defs.get(k, frozenset({'?'})) | new.defs.get(k, frozenset({'?'}))
+        z.aux = {k: v for k, v in self.aux.items() if new.aux.get(k) == v}
         return z
 
     def describe(self, names: list[str] | None = None) -> str:
@@ -448,7 +460,29 @@ class ZoneDomain(Domain):
                     if cn.count('.') == 1:
                         s.forget_prefix(root + '.')
 
+    def _record_defs(self, st: ast.stmt, s: Zone) -> None:
+        targets: list[ast.AST] = []
+        if isinstance(st, ast.Assign):
+            targets = list(st.targets)
+        elif isinstance(st, (ast.AnnAssign, ast.AugAssign)):
+            if not (isinstance(st, ast.AnnAssign) and st.value is None):
+                targets = [st.target]
+        did = f'{getattr(st, "lineno", 0)}:{norm(st)[:60]}'
+        stack = targets
+        while stack:
+            t = stack.pop()
+            if isinstance(t, (ast.Tuple, ast.List)):
+                stack.extend(t.elts)
+                continue
+            n = self.varname(t)
+            if n is not None:
+                s.defs[n] = frozenset({did})
+
     def transfer(self, st: ast.stmt, s: Zone):
+        self._record_defs(st, s)
+        return self._transfer(st, s)
+
+    def _transfer(self, st: ast.stmt, s: Zone):
         if isinstance(st, ast.Assign):
             self._calls_effects(st.value, s)
             if len(st.targets) == 1:
@@ -585,6 +619,31 @@ class ZoneDomain(Domain):
                                  comparators=[test.comparators[1]])
             return self.assume(ast.BoolOp(op=ast.And(), values=[first, second]), s, truth)
         return s
+
+    def assume_split(self, test: ast.AST, s: Zone, truth: bool) -> list:
+        """like assume, but a disjunction yields one state per disjunct"""
+        if isinstance(test, ast.UnaryOp) and isinstance(test.op, ast.Not):
+            return self.assume_split(test.operand, s, not truth)
+        if isinstance(test, ast.BoolOp):
+            is_and = isinstance(test.op, ast.And)
+            if is_and == truth:
+                states = [s]
+                for v in test.values:
+                    nxt = []
+                    for x in states:
+                        nxt.extend(self.assume_split(v, x, truth))
+                    states = nxt
+                return states
+            outs = []
+            prefix = s
+            for v in test.values:
+                if prefix is None:
+                    break
+                outs.extend(self.assume_split(v, prefix.copy(), truth))
+                prefix = self.assume(v, prefix, not truth)
+            return [o for o in outs if o is not None]
+        r = self.assume(test, s, truth)
+        return [r] if r is not None else []
 
     def _numeric(self, v: AVal, s: Zone) -> bool:
         lo, hi = self.interval(v, s)
